@@ -68,6 +68,19 @@ func (ex *Exec) call(c *ssa.Call) {
 		ex.applyContract(cc, c, args, callee.RelString(callee.Pkg.Pkg))
 		return
 	}
+	if ic := ex.g.implOf[callee]; ic != nil && len(args) > 0 && callee != ex.fn {
+		// a direct call of a method that implements a contracted interface method: use the
+		// interface contract with self = the boxed receiver
+		a2 := append([]Val{}, args...)
+		recv := a2[0]
+		if recv.Loc != nil {
+			recv = env.materialize(recv)
+		}
+		box, _ := ex.e.boxFns(callee.Params[0].Type())
+		a2[0] = Val{T: fmt.Sprintf("(%s %s)", box, recv.T), S: "Box"}
+		ex.applyContract(ic, c, a2, ic.Func)
+		return
+	}
 	if callee.Pkg != nil {
 		if f := ex.g.prog.Fset.File(callee.Pos()); f != nil && strings.Contains(f.Name(), "zz_verif_") {
 			r := env.pureCall(callee, args, fv, ex.st, ex.entry, 1, c.Type())
@@ -284,6 +297,18 @@ func (ex *Exec) havocAssigns(cc *Contract, m map[string]Val, pre *State) *State 
 	for _, cl := range cc.Assigns {
 		if cl.Desig == "all" {
 			return ex.jsEffect(pre)
+		}
+	}
+	for _, cl := range cc.Assigns {
+		if cl.Desig == "nothing-if" {
+			cond := ex.clauseTerm(cl, m, pre, pre, true)
+			cond = e.define("framecond", "Bool", cond)
+			same := pre.clone()
+			oa := pre.get("alloc")
+			same.havoc("alloc")
+			e.assume(fmt.Sprintf("(forall ((r Ref)) (! (=> (select %s r) (select %s r)) :pattern ((select %s r))))", oa, same.get("alloc"), same.get("alloc")))
+			any := ex.jsEffect(pre)
+			return mergeStates(e, []string{cond, "(not " + cond + ")"}, []*State{same, any})
 		}
 	}
 	post := pre.clone()
@@ -630,7 +655,7 @@ func (ex *Exec) calleeModVars(cc *Contract, call *ssa.Call, out map[string]bool)
 	out["allocA"] = true
 	for _, cl := range cc.Assigns {
 		switch cl.Desig {
-		case "all":
+		case "all", "nothing-if":
 			return true
 		case "nothing":
 		case "any":
@@ -814,6 +839,15 @@ func (ex *Exec) frameCheck(p token.Pos) {
 	}
 	for _, cl := range cc.Assigns {
 		if cl.Desig == "all" {
+			return
+		}
+	}
+	for _, cl := range cc.Assigns {
+		if cl.Desig == "nothing-if" {
+			// conditional frame: when the condition held on entry no unknown code may have run
+			// (the per-variable frame is not checked for conditional frames)
+			cond := ex.clauseTerm(cl, ex.params, ex.entry, ex.entry, true)
+			ex.oblige("frame", "nothing-if-condition", fmt.Sprintf("(=> %s (not %s))", cond, ex.st.get("jsfx")), p)
 			return
 		}
 	}
